@@ -31,7 +31,7 @@ func compareResults(a, b []StepResult) string {
 func TestC02(t *testing.T) {
 	f10 := KFActive("f10-inflight-insert-visible")
 	rapid.Check(t, func(t *rapid.T) {
-		sch := genSchema(t, SchemaCfg{Key: 1, Merges: true, MaxCols: 4, MinCols: 1})
+		sch := genSchema(t, SchemaCfg{Key: 1, Merges: true, EnsureLenMerge: true, MaxCols: 4, MinCols: 1})
 		log := &recLogger{}
 		mc := NewMachine("C02", sch, column.Options{Writer: log})
 		defer mc.Close()
@@ -176,12 +176,15 @@ func TestC02(t *testing.T) {
 			}
 			mc.CheckCount(t)
 			mc.CheckKeys(t)
+			// indexes: a commit applies every change to them, a rollback leaves them as they were
+			mc.CheckIndexes(t, mc.C, "after the transaction", nil)
 		}
 
 		t.Repeat(map[string]func(*rapid.T){
-			"txn":  runTxn,
-			"txn2": runTxn,
-			"txn3": runTxn,
+			"createIndex": func(t *rapid.T) { mc.ActCreateIndex(t, twin) },
+			"txn":         runTxn,
+			"txn2":        runTxn,
+			"txn3":        runTxn,
 			"prefill": func(t *rapid.T) {
 				if len(mc.M.Rows) > 20000 {
 					t.Skip("large enough")
@@ -226,6 +229,8 @@ func TestC02(t *testing.T) {
 		// final: primary, twin and model agree completely
 		mc.CheckFull(t, false)
 		mc.CheckKeys(t)
+		mc.CheckIndexes(t, mc.C, "at the end", nil)
+		mc.CheckIndexes(t, twin, "twin at the end", nil)
 		got, cnt, err := extractRange(twin, sch, mc.M.ColLive, true)
 		if err != nil {
 			mc.fail(t, "reading the twin: %v", err)
